@@ -648,6 +648,14 @@ func (w *World) logf(format string, args ...any) {
 // running task or from a scheduler hook only. Never draws, never reads a real clock.
 func (w *World) Event(format string, args ...any) { w.logf(format, args...) }
 
+// Note appends to the textual event log only (not to the digest): diagnostics that must
+// not make a traced replay differ from an untraced one.
+func (w *World) Note(format string, args ...any) {
+	if w.cfg.Trace {
+		w.events = append(w.events, fmt.Sprintf("%d %v # %s", w.steps, time.Since(w.start), fmt.Sprintf(format, args...)))
+	}
+}
+
 func (w *World) Probe(name string) {
 	w.mu.Lock()
 	w.probes[name]++
